@@ -114,7 +114,7 @@ def createdOk (pre : State) (op : Op) (accepted : Bool) (post : State) : Bool :=
         k == genId lock sender to coins &&
         (match AMap.get? post.htlcs k with
          | some c => c == newContract pre sender to coins lock ts timeLock transfer c.direction &&
-                     dirOk pre sender to coins transfer c.direction && !blocked to
+                     dirOk pre sender to coins transfer c.direction && !blocked to && to != escrow
          | none => false)
       | _ => false
     else (newIds pre post).isEmpty
